@@ -224,10 +224,10 @@ Qed.
 Lemma parse_root_wf : forall toks a, forallb tok_wf toks = true -> parse_root toks = Ok a -> wfb true a = true.
 Proof.
   intros toks a W H. unfold parse_root in H.
-  assert (G : forall x, match parse_or (length toks) toks with
+  assert (G : forall x, match parse_or (S (length toks)) toks with
                         | Ok (a0, [_]) => Ok a0 | Ok (a0, []) => Reject | Ok (a0, _ :: _ :: _) => Reject
                         | Reject => Reject | OutOfFuel => OutOfFuel end = Ok x -> wfb true x = true).
-  { intros x Hx. destruct (parse_or (length toks) toks) as [[a0 [|t0 [|t1 r]]]| |] eqn:E; try discriminate.
+  { intros x Hx. destruct (parse_or (S (length toks)) toks) as [[a0 [|t0 [|t1 r]]]| |] eqn:E; try discriminate.
     inversion Hx; subst. unfold parse_or in E. apply (parse_or_with_PI _ _ (parse_op_PI _) _ _ _ W E). }
   destruct toks as [|t toks]; [apply G; exact H|].
   destruct t; try (apply G; exact H). inversion H; reflexivity.
